@@ -64,6 +64,11 @@ func (t *Track) RecordFrom(inPort drivers.In, ticks MetricTicks, bpm float64) (s
 	t.Add(0, MetaTempo(bpm))
 	var absmillisec int32
 	return midi.ListenTo(inPort, func(msg midi.Message, absms int32) {
+		// realtime and system common messages can't be stored in a SMF track, skip them
+		// (without touching absmillisec, so that the timing of the following message is preserved)
+		if !msg.Is(midi.ChannelMsg) && !msg.Is(midi.SysExMsg) {
+			return
+		}
 		deltams := absms - absmillisec
 		absmillisec = absms
 		delta := ticks.Ticks(bpm, time.Duration(deltams)*time.Millisecond)
